@@ -223,14 +223,44 @@ func subRandom() mon.Sub {
 	}
 }
 
+// subLarge: messages around 1 MiB, the size above which ReadMessage stops
+// pre-allocating by the announced length and ws.ReadFrame reads incrementally.
+func subLarge() mon.Sub {
+	const M = 1 << 20
+	cases := [][]gen.Shape{
+		{{Op: ref.OpBinary, Fin: true, Len: M}},
+		{{Op: ref.OpText, Fin: true, Len: M + 1}, {Op: ref.OpText, Fin: true, Len: 2}},
+		{{Op: ref.OpBinary, Fin: false, Len: M - 1}, {Op: ref.OpCont, Fin: true, Len: 5}, {Op: ref.OpPing, Fin: true, Len: 3}},
+		{{Op: ref.OpText, Fin: false, Len: 9}, {Op: ref.OpPing, Fin: true, Len: 4}, {Op: ref.OpCont, Fin: true, Len: M + 1}, {Op: ref.OpBinary, Fin: true, Len: 1}},
+		{{Op: ref.OpBinary, Fin: false, Len: 0}, {Op: ref.OpCont, Fin: false, Len: M + 700}, {Op: ref.OpCont, Fin: true, Len: 0}},
+		{{Op: ref.OpText, Fin: true, Len: 1}, {Op: ref.OpBinary, Fin: true, Len: 2*M + 17}, {Op: ref.OpText, Fin: true, Len: 1}},
+	}
+	return mon.Sub{
+		Name: "large", Required: true,
+		N: func(t string) int {
+			if t == "thorough" {
+				return len(cases) * 3 * 2
+			}
+			return len(cases)
+		},
+		Do: func(c *mon.C) {
+			shapes := cases[c.I%len(cases)]
+			side := []ref.Side{ref.SideServer, ref.SideClient, ref.SideNone}[(c.I/len(cases)+c.I)%3]
+			if checkStream(c, shapes, side, 2) {
+				c.Sample(map[string]interface{}{"frames": gen.ShapesKey(shapes), "side": side})
+			}
+		},
+	}
+}
+
 func main() {
 	mon.Main(&mon.Spec{
 		Property: "C04",
 		Level:    "exploration",
-		Rule: "cases: every state-machine-valid complete frame sequence up to depth 3 (quick; alphabet {text,binary,cont} x fin x len{0,1,3} + {ping,pong} x len{0,2}) or depth 5 (thorough; len{0,2}), on server/client/zero side, then seeded random sequences of up to 40 frames with payloads across 125/126, 4096 and 65535/65536; " +
+		Rule: "cases: every state-machine-valid complete frame sequence up to depth 3 (quick; alphabet {text,binary,cont} x fin x len{0,1,3} + {ping,pong} x len{0,2}) or depth 5 (thorough; len{0,2}), on server/client/zero side, then seeded random sequences of up to 40 frames with payloads across 125/126, 4096 and 65535/65536, and six stream shapes with messages around 1 MiB and 2 MiB (unfragmented, fragmented with the big part first / last / in the middle, control frames in between); " +
 			"each stream is run through 11 consumer configurations (manual Reader with full/lazy/no/ControlFrameHandler intermediate handler, with Discard, and with MaxFrameSize equal to the largest frame, NextReader, ReadMessage, ReadData, Read*Text, Read*Binary) x 3 chunk plans x 2 caller buffer sizes and compared with the reference reassembly, clean EOF, full consumption, OnContinuation count and pong replies. " +
 			"distinct = (frame-shape signature with bucketed lengths, entry, plan kind, side).",
 		Assumptions: []string{"reference reassembly ref.Reassemble and frame encoder ref.Frame.Encode are correct", "NextReader drops intermediate control frames and ReadMessage returns them before the glued message, as documented"},
-		Subs:        []mon.Sub{subEnum(), subRandom()},
+		Subs:        []mon.Sub{subEnum(), subRandom(), subLarge()},
 	})
 }
